@@ -139,7 +139,7 @@ type obs struct {
 }
 
 func run(t *testing.T, c cfg) (o obs) {
-	synctest.Test(t, func(t *testing.T) {
+	syncfx.Bubble(t, func(t *testing.T) {
 		w := syncfx.NewWorld()
 		defer w.Close()
 		id := fixture.Key("ed25519", 0)
@@ -179,8 +179,8 @@ func run(t *testing.T, c cfg) (o obs) {
 				w.Dst.Put(ch.Cids[i], b)
 			}
 		}
-		events, cancelEvents := sub.OnSyncFinished()
-		defer cancelEvents()
+		lst := w.Listen()
+		defer lst.Stop()
 		p.Publisher.SetRoot(ch.Cids[c.H])
 		ctx := context.Background()
 		pn, pm := vp.Guard(func() {
@@ -217,15 +217,7 @@ func run(t *testing.T, c cfg) (o obs) {
 			o.panicked = pm
 			return
 		}
-		for {
-			select {
-			case ev := <-events:
-				o.events = append(o.events, ev)
-				continue
-			default:
-			}
-			break
-		}
+		o.events = lst.Poll()
 		o.hookPeer = true
 		for _, h := range w.HookLog() {
 			o.hooks = append(o.hooks, idx(h.Cid))
@@ -590,7 +582,7 @@ func checkOneEntries(t *testing.T, r *vp.Recorder, c ecfg) {
 	var serr error
 	var panicked string
 	var other []string
-	synctest.Test(t, func(t *testing.T) {
+	syncfx.Bubble(t, func(t *testing.T) {
 		w := syncfx.NewWorld()
 		defer w.Close()
 		id := fixture.Key("ed25519", 0)
